@@ -100,6 +100,10 @@ def render(e):
         return f"({render(e[2])} {e[1]} {render(e[3])})"
     if k == "neg":
         return f"(-{render(e[1])})"
+    if k == "fact":
+        return f"({render(e[2])}{'!' * e[1]})"
+    if k == "ans":
+        return e[1]
     if k == "not":
         return f"(!{render(e[1])})"
     if k == "if":
@@ -209,6 +213,7 @@ class Machine:
         self.prints = []
         self.steps = 0
         self.depth = 0
+        self.last = None       # value of the last top-level expression statement (`ans`, `_`)
 
     def lookup_fn(self, name, nfuncs):
         for i in range(nfuncs - 1, -1, -1):
@@ -278,6 +283,19 @@ class Machine:
             raise ValueError(op)
         if k == "neg":
             return -self.ev(e[1], locals_, ng, nf)
+        if k == "fact":
+            x = self.ev(e[2], locals_, ng, nf)
+            if x < 0 or x != int(x):
+                raise EvalError("factorial of a negative or non-integer number")
+            result = 1.0
+            while x >= 1.0 and result != float("inf"):
+                result *= x
+                x -= float(e[1])
+            return result
+        if k == "ans":
+            if self.last is None:
+                raise EvalError("no last result")
+            return self.last
         if k == "not":
             return not self.ev(e[1], locals_, ng, nf)
         if k == "if":
@@ -436,6 +454,7 @@ class Machine:
                 self.prints.append(fmt_value(self.ev(s[1], [], len(self.globals), len(self.funcs))))
             elif k == "expr":
                 last = self.ev(s[1], [], len(self.globals), len(self.funcs))
+                self.last = last
         return last
 
 
@@ -450,6 +469,8 @@ class Gen:
         self.globals = []       # (name, type)
         self.funcs = []         # (name, params, ret, recursive)
         self.stmts = []
+        self.last_expr_type = None
+        self.top_level = False
 
     def fresh(self, p):
         self.n += 1
@@ -524,9 +545,13 @@ class Gen:
 
     def expr(self, t, locals_, depth, in_fn=None):
         rng = self.rng
+        if self.top_level and not locals_ and self.last_expr_type == t and rng.random() < 0.12:
+            return ("ans", rng.choice(["ans", "_"]))
         if depth <= 0 or rng.random() < 0.12:
             return self.leaf(t, locals_)
         r = rng.random()
+        if t == NUM and r > 0.97:
+            return ("fact", rng.choice([1, 1, 2, 3]), ("num", float(rng.choice([0, 1, 3, 4, 5, 6]))))
         sub = lambda ty, d=depth - 1: self.expr(ty, locals_, d, in_fn)
         # constructs available for every type
         if r < 0.10:
@@ -649,6 +674,17 @@ class Gen:
 
     # statements -------------------------------------------------------------------------------
     def statement(self):
+        self.top_level = True
+        try:
+            s = self._statement()
+        finally:
+            self.top_level = False
+        if s[0] == "expr":
+            self.last_expr_type = s[2] if len(s) > 2 else None
+            s = s[:2]
+        return s
+
+    def _statement(self):
         rng = self.rng
         r = rng.random()
         try:
@@ -666,9 +702,9 @@ class Gen:
                 t = rng.choice([STR, STR, NUM, BOOL])
                 return ("print", self.expr(t, [], rng.choice([1, 2, 3])))
             t = rng.choice([NUM, NUM, BOOL, STR, LIST(NUM), ("struct", "VfP"), ("struct", "VfR"), ("struct", "VfN")])
-            return ("expr", self.expr(t, [], rng.choice([2, 3, 4, 5])))
+            return ("expr", self.expr(t, [], rng.choice([2, 3, 4, 5])), t)
         except LookupError:
-            return ("expr", ("num", 1.0))
+            return ("expr", ("num", 1.0), NUM)
 
     def function(self):
         rng = self.rng
@@ -742,7 +778,7 @@ def contains_kind(e, kinds):
     return False
 
 
-NODE_KINDS = {"num", "bool", "str", "var", "fnref", "bin", "neg", "not", "if", "call", "callv", "pipe", "mk", "field", "list", "lit", "ip"}
+NODE_KINDS = {"ans", "fact", "num", "bool", "str", "var", "fnref", "bin", "neg", "not", "if", "call", "callv", "pipe", "mk", "field", "list", "lit", "ip"}
 
 
 def gen_program(rng, tag, nstmts):
